@@ -66,6 +66,9 @@ NEEDS = {
  "C16d": "two names of one table, one start key beginning with ',' and one beginning with a byte below ','",
  "C19d": "a region on a server hosting nothing else is superseded while the server keeps running, then Close()",
  "C20d": "a server's only cached region is replaced by regions on the same server (split with both daughters local)",
+ "C10e": "a Delete with DeleteOneVersion and a family whose inner map is empty but not nil ({cf: {}}): cellblock form says DeleteFamily, protobuf form DELETE_FAMILY_VERSION",
+ "C16e": "equal table names and start keys that first differ at bytes 128 or more apart (one byte >= 0x80, the other low): sign inverted, at exactly 128 not antisymmetric",
+ "C18d": "a response that arrives for a call whose context has already ended (counter not decremented, deadline left armed), then an idle period longer than the read timeout",
 }
 CHECKS = {  # seed -> checks to try (own property first)
  "C01": ["C01"], "C02": ["C02"], "C03": ["C03"], "C04": ["C04", "C09"], "C05": ["C05", "C12"], "C06": ["C06"], "C07": ["C07"],
@@ -75,6 +78,7 @@ CHECKS = {  # seed -> checks to try (own property first)
  "C16c": ["C16"], "C19c": ["C19", "C03"], "C20c": ["C20", "C19"],
  "C01d": ["C01", "C08"], "C04d": ["C04", "C17"], "C06d": ["C06", "C14"], "C07d": ["C07"], "C08d": ["C08", "C01"], "C10d": ["C10"], "C15d": ["C15"], "C16d": ["C16"], "C19d": ["C19", "C20"], "C20d": ["C20", "C19"],
  "C02c": ["C02"], "C03c": ["C03"], "C05c": ["C05"], "C06c": ["C06"], "C11c": ["C11"], "C12c": ["C12", "C01"], "C13c": ["C13", "C03"], "C14c": ["C14"], "C17c": ["C17", "C13"], "C18c": ["C18"],
+ "C10e": ["C10", "C05"], "C16e": ["C16", "C01"], "C18d": ["C18", "C03", "C13"],
 }
 names = sys.argv[1:] or sorted(os.listdir('/verif/seeded'))
 rows = []
@@ -96,7 +100,7 @@ for name in names:
         print(name, chk, rc, classes[:2], flush=True)
     meta = {
         "seed": name, "property": prop,
-        "origin": "written by a sub-agent that saw only the property text and its own worktree of /repo; confirmed with tools/verify_seed.sh "
+        "origin": "written by a sub-agent that saw only the property text and its own worktree of /repo; confirmed with tools/verify_seed.sh (verify_seed_flat.sh for round 7) "
                   "(patch applies, project builds, full existing suite passes twice with it, demonstration fails with it and passes without it)",
         "needs_to_manifest": NEEDS.get(name, NEEDS.get(prop, "")),
         "demonstration": open(d + '/demo_cmd.txt').read().strip().splitlines()[-1] if os.path.exists(d + '/demo_cmd.txt') else "",
